@@ -1788,3 +1788,112 @@ func init() {
 		},
 	})
 }
+
+func init() {
+	register(&Rule{
+		Name: "server-teardown-bounded", Props: []string{"C10", "C17"}, Engine: "AST", Floor: 4,
+		Doc: "Serve's teardown cannot be held open by the peer: the wait for the write loop to drain is a select with a timer arm of a positive constant duration; the reader channel is closed before that wait (which unwinds the stream loop, which stops the writer); the write loop's goroutine closes the socket when it leaves; the stream loop's goroutine closes writeStop after the loop",
+		Run: func(p *Prog, r *Out) {
+			fd := p.decl("(*serverConn).Serve")
+			if fd == nil {
+				r.undecided("(*serverConn).Serve", "?", "no longer resolves")
+				return
+			}
+			r.fn("(*serverConn).Serve")
+			pos := p.pos(fd.Pos())
+			bounded, closesReader, order := false, false, false
+			closesSock, closesStop := false, false
+			ast.Inspect(fd.Body, func(n ast.Node) bool {
+				switch x := n.(type) {
+				case *ast.DeferStmt:
+					lit, ok := x.Call.Fun.(*ast.FuncLit)
+					if !ok {
+						return true
+					}
+					closeAt, selAt := token.NoPos, token.NoPos
+					ast.Inspect(lit.Body, func(m ast.Node) bool {
+						switch y := m.(type) {
+						case *ast.CallExpr:
+							if p.calleeOf(y) == "builtin.close" && squash(p.text(y.Args[0])) == "sc.reader" {
+								closesReader, closeAt = true, y.Pos()
+							}
+						case *ast.SelectStmt:
+							done, timer := false, false
+							for _, c := range y.Body.List {
+								cc := c.(*ast.CommClause)
+								if cc.Comm == nil {
+									continue
+								}
+								t := squash(p.text(cc.Comm))
+								if strings.Contains(t, "<-writeDone") {
+									done = true
+								}
+								if strings.Contains(t, "<-time.After(") {
+									ast.Inspect(cc.Comm, func(k ast.Node) bool {
+										if cl, ok := k.(*ast.CallExpr); ok && p.calleeOf(cl) == "time.After" {
+											if v := p.constOf(cl.Args[0]); v != nil {
+												if d, ok := p.intConst(cl.Args[0]); ok && d > 0 && d <= int64(60*1e9) {
+													timer = true
+												}
+											}
+										}
+										return true
+									})
+								}
+							}
+							if done && timer && len(y.Body.List) == 2 {
+								bounded, selAt = true, y.Pos()
+							}
+						}
+						return true
+					})
+					if closeAt.IsValid() && selAt.IsValid() && closeAt < selAt {
+						order = true
+					}
+				case *ast.GoStmt:
+					lit, ok := x.Call.Fun.(*ast.FuncLit)
+					if !ok {
+						return true
+					}
+					runsWrite, runsStreams := false, false
+					inspectCalls(lit.Body, func(c *ast.CallExpr) {
+						switch p.calleeOf(c) {
+						case "(*serverConn).writeLoop":
+							runsWrite = true
+						case "(*serverConn).handleStreams":
+							runsStreams = true
+						}
+					})
+					if runsWrite {
+						ast.Inspect(lit.Body, func(m ast.Node) bool {
+							if d, ok := m.(*ast.DeferStmt); ok && strings.Contains(squash(p.text(d)), "sc.c.Close()") {
+								closesSock = true
+							}
+							return true
+						})
+					}
+					if runsStreams {
+						after := false
+						for _, s := range lit.Body.List {
+							if es, ok := s.(*ast.ExprStmt); ok {
+								if c, ok := es.X.(*ast.CallExpr); ok {
+									if p.calleeOf(c) == "(*serverConn).handleStreams" {
+										after = true
+									}
+									if after && p.calleeOf(c) == "builtin.close" && squash(p.text(c.Args[0])) == "sc.writeStop" {
+										closesStop = true
+									}
+								}
+							}
+						}
+					}
+				}
+				return true
+			})
+			r.check(bounded, "wait for the write loop is bounded", pos, "select { case <-writeDone: case <-time.After(constant): }", "Serve's teardown waits for the write loop without a timer arm (or with more arms): a peer that has stopped reading keeps the write loop in its last write, and Serve, and with it ServeConn, never returns")
+			r.check(closesReader && order, "reader closed before the wait", pos, "close(sc.reader) then the bounded wait", "the teardown no longer closes the reader channel before it waits for the writer: the stream loop is what stops the writer, and it only leaves when its input is closed")
+			r.check(closesSock, "write loop's goroutine closes the socket on its way out", pos, "defer sc.c.Close() around writeLoop", "the goroutine that runs the write loop no longer closes the socket when the loop leaves (also by panic): the read loop keeps waiting for a peer that gets no more answers")
+			r.check(closesStop, "writer is stopped after the stream loop", pos, "handleStreams(); ...; close(sc.writeStop)", "writeStop is no longer closed after the stream loop has left: the write loop never drains and stops, and every later sc.write blocks")
+		},
+	})
+}
